@@ -2,6 +2,7 @@ package core
 
 import (
 	"regexp"
+	"runtime"
 	"strings"
 )
 
@@ -79,4 +80,11 @@ func StableBlock(dump string) (blocked, active []string) {
 		}
 	}
 	return blocked, active
+}
+
+// StackAll returns the stacks of all goroutines.
+func StackAll() string {
+	buf := make([]byte, 8<<20)
+	n := runtime.Stack(buf, true)
+	return string(buf[:n])
 }
